@@ -138,13 +138,13 @@ PROPS = {
         ],
     },
     'C15': {
-        'units': ['core_kernel', 'magnitude', 'unops', 'num_traits'],
+        'units': ['core_kernel', 'magnitude', 'unops', 'num_traits', 'cmp_rkyv'],
         'title': 'floor, ceil, trunc, fract, abs, neg, magnitude and sign predicates are exact',
         'design_ref': 'DESIGN.md section 7 (C15)',
         'assumptions': [
             'num-traits: the external traits Zero/One/Num/Signed are stand-in declarations (required-method signatures of num-traits 0.2.19) generated in the unit; provided methods (set_zero, set_one) not covered',
             'from_str_radix is specified relative to an uninterpreted from_str_result (the parser itself is C06)',
-            'rkyv ArchivedDecimal variants of the predicates not covered',
+            'the rkyv ArchivedDecimal variants of the four predicates are verified in unit cmp_rkyv (rule R14)',
         ],
     },
     'C11': {
